@@ -139,6 +139,32 @@ mut("reader-last-sentinel", "hcobs/src/stream_reader.rs",
     "                        if state != State::SkipSentinel { self.last_sentinel_offset = offset - (STUFF_SEQUENCE.len() as u64); }",
     ["C06"])
 
+# ---- arena reads -------------------------------------------------------------
+mut("readn-error-despite-bytes", "owning_iovec/src/byte_arena/mod.rs",
+    "        match (got, err) {\n            (0, Some(e)) => Err(e),\n            _ => Ok(got),\n        }",
+    "        match (got, err) {\n            (0, Some(e)) => Err(e),\n            (1, Some(e)) if e.kind() != std::io::ErrorKind::Interrupted => Err(e),\n            _ => Ok(got),\n        }",
+    ["C17"])
+mut("readn-eintr-not-counted", "owning_iovec/src/byte_arena/mod.rs",
+    "        for _ in 0..max_attempts.get() {\n            let ret = src.read(&mut slice[got..]);",
+    "        let mut budget = max_attempts.get();\n        while budget > 0 {\n            let ret = src.read(&mut slice[got..]);\n            if !matches!(&ret, Err(e) if e.kind() == std::io::ErrorKind::Interrupted) { budget -= 1; } else if budget > 3 { budget -= 1; }",
+    ["C17"])
+mut("readn-remainder-overrelease", "owning_iovec/src/byte_arena/mod.rs",
+    "                let remainder = ioslice::make_ioslice(unsafe { base.add(got) }, count - got);",
+    "                let over = ((got == 3) & (count > 3)) as usize;\n                let remainder = ioslice::make_ioslice(unsafe { base.add(got - over) }, count - got + over);",
+    ["C17"])
+mut("readn-eof-keeps-error", "owning_iovec/src/byte_arena/mod.rs",
+    "                        // EOF: bail out with Ok(len).\n                        err = None;",
+    "                        // EOF: bail out with Ok(len).",
+    ["C17"])
+mut("readn-continue-after-error", "owning_iovec/src/byte_arena/mod.rs",
+    "                    if kind != std::io::ErrorKind::Interrupted {",
+    "                    if kind != std::io::ErrorKind::Interrupted && kind != std::io::ErrorKind::TimedOut {",
+    ["C17"])
+mut("encode-read-drops-anchor-early", "hcobs/src/lib.rs",
+    "        let anchored_slice = self.read_n(reader, count, attempts)?;\n        let ret = anchored_slice.slice().len();\n\n        self.encode_anchored(anchored_slice);\n        Ok(ret)",
+    "        let anchored_slice = self.read_n(reader, count, attempts)?;\n        let ret = anchored_slice.slice().len();\n        if ret == 1 && count > 2 { return Ok(ret); }\n\n        self.encode_anchored(anchored_slice);\n        Ok(ret)",
+    ["C17", "C01"])
+
 # ---- streaming / iovec behaviour seen through the codecs -------------------
 mut("iovec-stable-prefix-last-backref", "owning_iovec/src/implementation.rs",
     "            .backrefs\n            .first()\n            .map(|backref| backref.1.unwrap().slice_index);",
